@@ -29,7 +29,7 @@ import (
 func init() {
 	Register(&Scenario{
 		Prop: "C17", Run: scenarioC17, QuickRuns: 2800, ThoroughRuns: 70000, Level: "exploration",
-		Rule:       "one run = one scenario (a world: start genome kind, option swarm, seeded deterministic fitness landscape, k epochs with the sequential executor; or an experiment: Experiment.Execute with the sequential executor and a deterministic scripted evaluator) executed once as the reference and then 1..4 more times from the same tape slice under a tape-chosen perturbation: immediately again; after unrelated work (another world evolved under another seed, heap churn, forced GC); with GOMAXPROCS 1/4/16 and GC percent 1/off; inside a fake-clock bubble starting at 2000-01-01 with sleeps of hours to years between epochs (and different evaluator durations for experiments); in a fresh child process of the worker binary with another GOMAXPROCS/GOGC. After construction and after every epoch (or at every evaluator entry) the canonical population dump (species ids, ages, improvement ages, membership in order; every genome with floats as bit patterns; population counters) must be identical to the reference. A case is one compared rerun; non-trivial when the scenario produced structural innovations or more than one species; distinct by (scenario hash, perturbation)",
+		Rule:       "one run = one scenario (a world: start genome kind, option swarm, seeded deterministic fitness landscape, k epochs with the sequential executor; or an experiment: Experiment.Execute with the sequential executor and a deterministic scripted evaluator) executed once as the reference and then 1..4 more times from the same tape slice under a tape-chosen perturbation: immediately again; after unrelated work (another world evolved under another seed, heap churn, forced GC); with GOMAXPROCS 1/4/16 and GC percent 1/25/400; inside a fake-clock bubble starting at 2000-01-01 with sleeps of hours to years between epochs (and different evaluator durations for experiments); in a fresh child process of the worker binary with another GOMAXPROCS/GOGC. After construction and after every epoch (or at every evaluator entry) the canonical population dump (species ids, ages, improvement ages, membership in order; every genome with floats as bit patterns; population counters) must be identical to the reference. A case is one compared rerun; non-trivial when the scenario produced structural innovations or more than one species; distinct by (scenario hash, perturbation)",
 		RealParts:  []string{"NewPopulation / NewPopulationRandom / ReadPopulation, SequentialPopulationEpochExecutor.NextEpoch with every operator beneath it, Experiment.Execute (sequential)", "math/rand global source seeded by the scenario", "Go runtime: real allocator, collector, map seeds; a real child process for the fresh-process perturbation", "time.Now / time.Since inside Experiment.Execute under the real and under the fake clock"},
 		StubParts:  []string{"fitness assignment (seeded deterministic landscape) / GenerationEvaluator (scripted, deterministic)", "wall clock in the fake-clock perturbation (testing/synctest)"},
 		FaultKinds: []string{"fault.clock_jump", "fault.heap_churn_gc", "fault.unrelated_work", "fault.gomaxprocs_change", "fault.gc_setting_change", "fault.fresh_process"},
@@ -190,6 +190,19 @@ func runC17World(t *Tape, thorough bool, env *c17Env, out *c17Outcome) {
 		w.Gen++
 		if err != nil {
 			out.add(fmt.Sprintf("epoch %d", e), "NextEpoch error: "+err.Error())
+			return
+		}
+		// bound the scenario: crossover of modular genomes can make genomes grow without limit (outside what the
+		// properties specify); the cut is a function of the population only, so every execution stops at the same point
+		total := 0
+		for _, o := range w.Pop.Organisms {
+			total += len(o.Genotype.Nodes) + len(o.Genotype.Genes) + len(o.Genotype.ControlGenes)
+			for _, cg := range o.Genotype.ControlGenes {
+				total += len(cg.ControlNode.Incoming) + len(cg.ControlNode.Outgoing)
+			}
+		}
+		if total > 400*len(w.Pop.Organisms) {
+			out.add(fmt.Sprintf("after epoch %d", e), fmt.Sprintf("scenario stopped: genomes grew to %d parts in a population of %d", total, len(w.Pop.Organisms)))
 			return
 		}
 		out.add(fmt.Sprintf("after epoch %d", e), PopDump(w.Pop))
@@ -425,7 +438,7 @@ func scenarioC17(c *RunCtx) {
 		case pertRuntime:
 			c.Count("probe.rerun.runtime_settings")
 			procs := []int{1, 4, 16}[rng.Intn(3)]
-			gcp := []int{1, -1, 400}[rng.Intn(3)]
+			gcp := []int{1, 25, 400}[rng.Intn(3)]
 			detail = fmt.Sprintf(" (GOMAXPROCS %d, GC percent %d, heap churn between epochs)", procs, gcp)
 			oldP := runtime.GOMAXPROCS(procs)
 			oldG := debug.SetGCPercent(gcp)
@@ -464,7 +477,7 @@ func scenarioC17(c *RunCtx) {
 			c.Count("probe.rerun.fresh_process")
 			c.Count("fault.fresh_process")
 			gmp := []string{"1", "2", "16"}[rng.Intn(3)]
-			gogc := []string{"100", "10", "off"}[rng.Intn(3)]
+			gogc := []string{"100", "10", "400"}[rng.Intn(3)]
 			detail = fmt.Sprintf(" (child process, GOMAXPROCS=%s GOGC=%s)", gmp, gogc)
 			hashes, labels, err := c17Child(sub, c.Thorough, gmp, gogc)
 			if err != nil {
